@@ -49,6 +49,9 @@ func storeAlphabet(o alphabetOpts) []storeOp {
 	}
 	if len(o.idxA) > 0 && len(o.weights) > 0 {
 		ops = append(ops, opAddBin(0, o.idxA[len(o.idxA)-1], 0.0009765625))
+		// zero weight at an index of its own: the map does not change (no new
+		// extreme index, no empty bin in the iteration)
+		ops = append(ops, opAddW(0, o.idxA[len(o.idxA)-1]+7, 0), opAddBin(0, o.idxA[0]-3, 0))
 	}
 	for _, i := range o.idxB {
 		ops = append(ops, opAdd(1, i))
